@@ -3,7 +3,7 @@
 (* Validates recorded runs of the real ComparisonReporter (env              *)
 (* VERIF_TRACES: JSON array).  One item = one pair of race results that was *)
 (* stored with FileRaceStore, read back and compared:                       *)
-(*   [id, proc, B: [E, v], C: [E, v], pairing,                              *)
+(*   [id, proc, B: [E, nm, v], C: [E, nm, v], pairing,                      *)
 (*    fwd, swp: rows of _metrics_table(plain=False) for (B, C) and (C, B),  *)
 (*    plain: rows of _metrics_table(plain=True) for (B, C),                 *)
 (*    selfb, selfc: rows for (B, B) and (C, C),                             *)
@@ -27,7 +27,7 @@ MkOf(colour) == CASE colour = "green" -> "improve" [] colour = "red" -> "regress
 Obs(r) == [s |-> r.s, b |-> r.b, c |-> r.c, u |-> r.u,
            d |-> [sg |-> r.d.sg, ip |-> r.d.ip, fp |-> r.d.fp, mk |-> MkOf(r.dc)],
            p |-> [sg |-> r.p.sg, ip |-> r.p.ip, fp |-> r.p.fp, mk |-> MkOf(r.pc)]]
-Struct(x) == [E |-> ToSet(x.E), v |-> x.v]
+Struct(x) == [E |-> ToSet(x.E), nm |-> x.nm, v |-> x.v]
 
 Known(rows) == {j \in 1..Len(rows) : rows[j].s # 0}
 Dom(rows) == {rows[j].s : j \in Known(rows)}
